@@ -5,7 +5,7 @@ Delete / Update commit (the arm is `moveFrags` at the affected addresses on the 
 ids of the visible rows there); it is established here for a handle on the latest version (nothing to rebase over).
 -/
 namespace LanceModel.C18
-open LanceModel.Table LanceModel.C17 List
+open LanceModel.Table LanceModel.C17Base List
 
 theorem versions_le {ms : List Manifest} (hv : Versions ms) : ∀ m ∈ ms, m.version ≤ ms.length := by
   induction ms with
